@@ -823,6 +823,175 @@ def probe_dtypes_aliasing(ctx):
     ctx.extra['memoised_results_shared_and_writeable'] = shared
 
 
+def _deep(x):
+    if isinstance(x, np.ndarray):
+        return x.copy()
+    if isinstance(x, (list, tuple)):
+        return type(x)(_deep(y) for y in x)
+    return x
+
+
+def _same(a, b):
+    if isinstance(a, np.ndarray) or isinstance(b, np.ndarray):
+        return isinstance(a, np.ndarray) and isinstance(b, np.ndarray) and a.shape == b.shape and a.dtype == b.dtype and np.array_equal(a, b)
+    if isinstance(a, (list, tuple)) and isinstance(b, (list, tuple)):
+        return len(a) == len(b) and all(_same(x, y) for x, y in zip(a, b))
+    return a == b
+
+
+def _scribble(x):
+    if isinstance(x, np.ndarray):
+        if x.flags.writeable and x.size:
+            x[...] = 7 if x.dtype.kind in 'iuf' else (7 + 7j if x.dtype.kind == 'c' else True)
+    elif isinstance(x, (list, tuple)):
+        for y in x:
+            _scribble(y)
+
+
+def leftreg_ok(L, T):
+    """L is the left regular form of T: permutation matrices with L[g]@L[h] = L[T[g,h]] and L[g][T[g,c], c] = 1"""
+    L = np.asarray(L); T = np.asarray(T); N = len(T)
+    if L.shape != (N, N, N) or not np.all((L == 0) | (L == 1)) or not np.all(L.sum(axis=1) == 1):
+        return 'not a family of permutation matrices'
+    cols = np.arange(N)
+    for g in range(N):
+        if not np.all(L[g][T[g], cols] == 1):
+            return f'L[{g}] is not left multiplication by element {g} of its table'
+    for g in range(N):
+        for h in range(N):
+            if not np.array_equal(L[g] @ L[h], L[T[g, h]]):
+                return f'L[{g}]@L[{h}] != L[T[{g},{h}]]'
+    return None
+
+
+def probe_result_aliasing(ctx):
+    """RESULT ALIASING ACROSS CALLS: for every function of the scope that returns an array / list — call it on input A, hold the result (and a
+    deep copy), call it on a DIFFERENT input B of the same size / order, then the held result must still equal its copy and still satisfy the
+    property of ITS input; and: overwrite the returned object, call again on the same input, the new result must be unaffected (skipped, and
+    recorded as an observation, for the two helpers that hand out their `lru_cache`d array on the pinned tree)."""
+    import numqi
+    G = numqi.group
+    q = ctx.quick()
+
+    def held(fname, A, B, fA, fB, check, describe):
+        """A, B: printable inputs; fA/fB: thunks; check(result) -> None | str (property of A's result)"""
+        rp = dict(function=fname, first_input=describe(A), second_input=describe(B),
+                  history=[f'r = {fname}({describe(A)})', 'c = deepcopy(r)', f'{fname}({describe(B)})', 'r == c and r still has the property of its own input'])
+        try:
+            r = fA(); c = _deep(r)
+            bad0 = check(r)
+            fB()
+        except Exception as e:
+            ctx.fail(f'alias:held-result:{fname}:raises', f'{fname}: history on {describe(A)} then {describe(B)} raised {type(e).__name__}: {e}'[:300], dict(rp, observed=f'{type(e).__name__}: {e}'[:200]))
+            return
+        if bad0 is not None:
+            return          # the result is wrong before the second call: reported by the direct probes
+        if not _same(r, c):
+            why = check(r)
+            ctx.fail(f'alias:held-result:{fname}', f'{fname}: the result held for {describe(A)} changed when the function was called on {describe(B)} '
+                     f'(same size); it now {"violates its property: " + why if why else "differs from its copy"}', dict(rp, now_violates=why))
+        elif check(r) is not None:
+            ctx.fail(f'alias:held-result:{fname}', f'{fname}: the result held for {describe(A)} no longer has its property after the call on {describe(B)}: {check(r)}', rp)
+        else:
+            ctx.probe_ok(('held', fname, describe(A), describe(B)))
+        ctx.count('held-result')
+
+    def overwritten(fname, A, fA, describe):
+        rp = dict(function=fname, input=describe(A), history=[f'r = {fname}({describe(A)})', 'c = deepcopy(r)', 'r[...] = 7', f'{fname}({describe(A)}) == c'])
+        try:
+            r = fA(); c = _deep(r); _scribble(r); r2 = fA()
+        except Exception as e:
+            ctx.fail(f'alias:overwritten-result:{fname}:raises', f'{fname}({describe(A)}): overwrite-and-recall raised {type(e).__name__}: {e}'[:300], dict(rp, observed=f'{type(e).__name__}'))
+            return
+        if not _same(r2, c):
+            ctx.fail(f'alias:overwritten-result:{fname}', f'{fname}({describe(A)}): after the returned object was overwritten in place the same call returns something else '
+                     '(the function hands out internal / memoised storage)', rp)
+        else:
+            ctx.probe_ok(('overwritten', fname, describe(A)))
+        ctx.count('overwritten-result')
+
+    tname = lambda kn: (f'{kn[0]}{kn[1]}' if kn[0] not in ('klein', 'quat') else kn[0])
+    tab = lambda kn: np.asarray(build_table(*kn))
+    # ---- left regular form: tables of the same order, both orders of the two calls, and a chain of three
+    same_order = [(('dih', 4), ('quat', 0)), (('cyc', 6), ('sym', 3)), (('alt', 4), ('dih', 6)), (('cyc', 12), ('mul', 13)), (('klein', 0), ('cyc', 4)),
+                  (('mul', 21), ('alt', 4)), (('cyc', 8), ('dih', 4)), (('mul', 15), ('quat', 0))]
+    if not q:
+        same_order += [(('sym', 4), ('dih', 12)), (('cyc', 24), ('sym', 4)), (('dih', 10), ('cyc', 20)), (('mul', 35), ('dih', 12))]
+    for a, b in same_order:
+        for A, B in ((a, b), (b, a)):
+            TA, TB = tab(A), tab(B)
+            held('cayley_table_to_left_regular_form', A, B, lambda: G.cayley_table_to_left_regular_form(TA), lambda: G.cayley_table_to_left_regular_form(TB),
+                 lambda L, TA=TA: leftreg_ok(L, TA), tname)
+    chain = [('dih', 4), ('quat', 0), ('cyc', 8), ('mul', 15)]
+    try:
+        Ts = [tab(k) for k in chain]
+        Ls = [G.cayley_table_to_left_regular_form(T) for T in Ts]          # all computed first, all checked afterwards
+        for k, T, L in zip(chain, Ts, Ls):
+            why = leftreg_ok(L, T)
+            if why is not None:
+                ctx.fail('alias:held-result:cayley_table_to_left_regular_form', f'left regular forms of {[tname(x) for x in chain]} computed one after the other and checked afterwards: '
+                         f'the one of {tname(k)} is wrong: {why}', dict(function='cayley_table_to_left_regular_form', tables=[tname(x) for x in chain], wrong=tname(k), why=why))
+            else:
+                ctx.probe_ok(('held-chain', tname(k)))
+    except Exception as e:
+        ctx.fail('alias:held-result:cayley_table_to_left_regular_form:raises', f'chain of left regular forms raised {type(e).__name__}: {e}'[:300], dict(tables=[tname(x) for x in chain]))
+    for A in [('dih', 4), ('sym', 3), ('cyc', 5)]:
+        TA = tab(A)
+        overwritten('cayley_table_to_left_regular_form', A, lambda: G.cayley_table_to_left_regular_form(TA), tname)
+    # ---- table constructors: hold one table, build others (same constructor / same order), the held one must stay a group table
+    grp = lambda T: (lambda bad: None if bad is None else f'{bad[0]} fails at {bad[1]}')(group_check(T))
+    ctor_pairs = [(('mul', 13), ('mul', 21)), (('mul', 5), ('mul', 8)), (('mul', 8), ('mul', 12)), (('dih', 4), ('dih', 5)), (('cyc', 6), ('cyc', 7)), (('sym', 3), ('alt', 3)),
+                  (('alt', 4), ('sym', 4)), (('sym', 4), ('sym', 3)), (('dih', 6), ('alt', 4)), (('cyc', 8), ('dih', 4)), (('klein', 0), ('mul', 8)), (('quat', 0), ('dih', 4))]
+    for A, B in ctor_pairs:
+        held('cayley table constructor', A, B, lambda: build_table(*A), lambda: build_table(*B), grp, tname)
+    shared = set(ctx.extra.get('memoised_results_shared_and_writeable', []))
+    for A in [('dih', 4), ('cyc', 6), ('mul', 15), ('klein', 0), ('quat', 0)]:
+        overwritten('cayley table constructor', A, lambda: build_table(*A), tname)
+    # S_n / A_n tables and the full partition table are the memoised objects themselves on the pinned tree (observation `memoised_results_shared_and_writeable`):
+    # the overwrite test is not applied to them (it would corrupt the cache for the rest of the run)
+    ctx.extra['overwrite_test_skipped_for'] = ['get_symmetric_group_cayley_table', 'get_sym_group_num_irrep(return_full=True)']
+    # ---- partitions / diagrams / tableaux / masks
+    ident = lambda x: str(x)
+    for A, B in ((6, 7), (7, 6), (5, 5), (4, 8)):
+        held('get_sym_group_young_diagram', A, B, lambda: G.get_sym_group_young_diagram(A), lambda: G.get_sym_group_young_diagram(B),
+             lambda Y, A=A: None if sorted(tuple(x for x in r if x > 0) for r in np.asarray(Y).tolist()) == sorted(tuple(x) for x in partitions_ref(A)) else 'not the partitions of N', ident)
+        held('get_sym_group_num_irrep(return_full=True)', A, B, lambda: G.get_sym_group_num_irrep(A, return_full=True), lambda: G.get_sym_group_num_irrep(B, return_full=True),
+             lambda r, A=A: None if int(r[0]) == len(partitions_ref(A)) and int(np.asarray(r[1])[A, A]) == len(partitions_ref(A)) else 'count is not the number of partitions', ident)
+    overwritten('get_sym_group_young_diagram', 6, lambda: G.get_sym_group_young_diagram(6), ident)
+    shape_pairs = [((3, 2), (2, 2, 1)), ((2, 2, 1), (3, 2)), ((2, 1), (2, 1)), ((3, 1), (2, 2)), ((2, 2), (2, 1, 1)), ((4, 2), (3, 3)), ((3, 2, 1), (4, 1, 1))]
+    for A, B in shape_pairs:
+        held('get_all_young_tableaux', A, B, lambda: G.get_all_young_tableaux(A), lambda: G.get_all_young_tableaux(B),
+             lambda ts, A=A: (lambda bad: None if bad is None else f'{bad[0]} {bad[1]}')(tableaux_violation(list(A), ts, hook_ref(list(A)))), ident)
+        held('get_young_diagram_mask', A, B, lambda: G.get_young_diagram_mask(A), lambda: G.get_young_diagram_mask(B),
+             lambda m, A=A: None if np.asarray(m).sum(axis=1).tolist() == list(A) else 'row sums are not the shape', ident)
+        held('get_young_diagram_transpose', A, B, lambda: G.get_young_diagram_transpose(A), lambda: G.get_young_diagram_transpose(B),
+             lambda t, A=A: None if int(np.asarray(t).sum()) == sum(A) and np.asarray(G.get_young_diagram_transpose(tuple(int(x) for x in t))).tolist() == list(A) else 'not the conjugate partition', ident)
+    for A in ((3, 2), (2, 1, 1)):
+        overwritten('get_all_young_tableaux', A, lambda: G.get_all_young_tableaux(A), ident)
+        overwritten('get_young_diagram_mask', A, lambda: G.get_young_diagram_mask(A), ident)
+        overwritten('get_young_diagram_transpose', A, lambda: G.get_young_diagram_transpose(A), ident)
+    # ---- irreducible blocks and characters of the left regular representation: tables of the same order
+    def irr_ok(irr, T):
+        N = len(T)
+        if sum(int(x.shape[1]) ** 2 for x in irr) != N:
+            return 'sum d^2 != |G|'
+        for x in irr:
+            if np.abs(np.einsum('gab,hbc->ghac', x, x) - x[T]).max() > TOL_IRREP:
+                return f'block of dimension {x.shape[1]} is not a homomorphism of its table'
+        return None
+    for a, b in [(('dih', 4), ('quat', 0)), (('cyc', 6), ('sym', 3)), (('sym', 3), ('cyc', 6)), (('klein', 0), ('cyc', 4))] + ([] if q else [(('alt', 4), ('dih', 6)), (('dih', 6), ('cyc', 12))]):
+        TA, TB = tab(a), tab(b)
+        LA, LB = np.array(G.cayley_table_to_left_regular_form(TA)), np.array(G.cayley_table_to_left_regular_form(TB))     # private copies of the inputs
+        held('reduce_group_representation', a, b, lambda: G.reduce_group_representation(LA), lambda: G.reduce_group_representation(LB), lambda irr, TA=TA: irr_ok(irr, TA), tname)
+        try:
+            irrA, irrB = G.reduce_group_representation(LA), G.reduce_group_representation(LB)
+            held('get_character_and_class', a, b, lambda: G.get_character_and_class(irrA), lambda: G.get_character_and_class(irrB),
+                 lambda r, irrA=irrA: None if np.allclose(np.asarray(r[0]), np.stack([np.trace(x, axis1=1, axis2=2) for x in irrA])) else 'characters are not the traces of the blocks', tname)
+        except Exception as e:
+            ctx.note(f'get_character_and_class history not evaluated for {tname(a)}: {type(e).__name__}: {e}'[:200])
+    overwritten('reduce_group_representation', ('sym', 3), lambda: G.reduce_group_representation(np.array(G.cayley_table_to_left_regular_form(tab(('sym', 3))))), tname)
+
+
 def probe(ctx):
     """direct evaluation of the property on the real code, independent of the model"""
     import numqi
@@ -936,6 +1105,10 @@ def probe(ctx):
     probe_dtypes_aliasing(ctx)
     if fresh is not None:
         probe_histories(ctx, fresh)
+    try:
+        probe_result_aliasing(ctx)       # last: it overwrites returned objects
+    except Exception as e:
+        ctx.fail('alias:held-result:probe-raises', f'result-aliasing probe raised {type(e).__name__}: {e}'[:300], dict(observed=f'{type(e).__name__}: {e}'[:200]))
     ctx.assumptions.append('irreducible blocks: np.linalg.eigh contract; unitarity/homomorphism tolerance 1e-8 (measured max error %.1e), character orthonormality 1e-6; hypotheses of NumqiProofs/IrrepAlgebra.lean card_eq_of_near_unitary / fourier_intertwines (entrywise residuals of FF^+-1, F^+F-1 below 1/(2*size) >= 1/240; intertwining) measured %.1e' % (ctx.extra.get('irrep_max_err', 0.0), ctx.extra.get('irrep_regular_equiv_residual', 0.0)))
 
 
